@@ -136,6 +136,12 @@ func localTree(root string) (*stack.Opts, []string, error) {
 			}
 		}
 	}
+	// unbalanced brackets, several at once
+	for _, fn := range []string{"main.g(0x1}})", "main.g({{0x1, 0x2}}}}, 0x3)", "main.g({{{{{{0x1}}}}}})", "main.g(}{)", "main.g({0x1, {0x2}}, }, {)"} {
+		seeds = append(seeds, fmt.Sprintf("goroutine 1 [running]:\n%s\n\t%s/main.go:8 +0x1d\n", fn, m))
+	}
+	// paths that extend a detected remote root by a few bytes only
+	seeds = append(seeds, "goroutine 1 [running]:\nexample.com/p.Do(0x1)\n\t/remote/gopath/src/example.com/p/file.go:4 +0x1\nfmt.Println(0x1)\n\t/remote/go/src/fmt/print.go:10 +0x1\nmain.a(0x1)\n\t/remote/gopath/try.go:1 +0x1\nmain.b(0x1)\n\t/remote/gopath2/m.go:1 +0x1\nmain.c(0x1)\n\t/remote/go/z.s:1 +0x1\nmain.d(0x1)\n\t/remote/gox.c:1 +0x1\nmain.e(0x1)\n\t/remote/go/src:1 +0x1\nmain.f(0x1)\n\t/remote/gopath/pkg/mo:1 +0x1\n")
 	seeds = append(seeds, fmt.Sprintf("goroutine 1 [running]:\nexample.com/p.Do(0x1)\n\t/remote/gopath/src/example.com/p/file.go:4 +0x1\ngithub.com/foo/bar/x.Y(0x1, 0x2)\n\t/remote/gopath/pkg/mod/github.com/foo/bar@v1.2.3/x/y.go:3 +0x1\nfmt.Println(0x1)\n\t/remote/go/src/fmt/print.go:10 +0x1\nfmt.Println(0x1)\n\t/x/fmt/print.go:10 +0x1\n"))
 	return opts, seeds, nil
 }
